@@ -35,4 +35,35 @@ def driverLine (inp obs : List String) : Bool × Bool × String × String :=
   | some o => (decide (m = o), spec script o, (verdict script o).getD "-", showObs m)
   | none => (false, false, "C08/unparsable-observation", showObs m)
 
+/-- the client's bytes cut into chunks of the given sizes (the list of sizes is cycled), each a data event -/
+def cutInto (fuel : Nat) (bs : Bytes) (sizes : List Nat) (k : Nat) : List Ev :=
+  match fuel, bs with
+  | 0, _ => []
+  | _, [] => []
+  | fuel + 1, bs =>
+    let n := max 1 (sizes.getD (k % max 1 sizes.length) 1)
+    .data (bs.take n) :: cutInto fuel (bs.drop n) sizes (k + 1)
+
+/-- `autocmp <write-buffering> <upgrade> <client bytes hex> ; <chunk size>*   |   ref=<h1|h2> same=<0|1> auto=<digest> single=<digest>`
+    The model's part is the detection on the script as it was cut (`readVersion`): it says which single-protocol server
+    the auto-detecting one has to behave like; that it does behave like it is the specification (`same=1`). -/
+def autocmpLine (inp obs : List String) : Bool × Bool × String × String :=
+  match inp with
+  | _bufw :: _upg :: hexs :: ";" :: sizes =>
+    let bs := parseHex hexs
+    let script := cutInto (bs.length + 1) bs (sizes.map natTok) 0
+    let v := match readVersion script [] with
+      | .ok .h2 _ _ => "h2"
+      | .ok .h1 _ _ => "h1"
+      | _ => "error"
+    let shown := s!"ref={v} same=1"
+    match obs with
+    | [r, same, _, _] =>
+      let cls : List String :=
+        (if r != s!"ref={v}" then ["C08/detected-protocol"] else []) ++
+        (if same != "same=1" then ["C08/auto-server-answers-differently-from-single-protocol-server"] else [])
+      (cls.isEmpty, cls.isEmpty, if cls.isEmpty then "-" else ",".intercalate cls, shown)
+    | _ => (false, false, "C08/unparsable-observation", shown)
+  | _ => (false, false, "bad-line", "")
+
 end Hd.Sniff
